@@ -47,8 +47,8 @@ class IdentityEliminationPass(ir.passes.InPlacePass):
        of any graph, replace all uses of `y` with a use of `x`, and remove the node.
     2. If `y` is an output of a graph, and `x` is not an input of any graph,
        we can still do the elimination, but the value `x` should be renamed to be `y`.
-    3. If `y` is a graph-output and `x` is a graph-input, we cannot eliminate
-       the node. It should be retained.
+    3. If `y` is a graph-output and `x` is a graph-input, an initializer or a value
+       captured from an outer scope, we cannot eliminate the node. It should be retained.
     """
 
     def call(self, model: ir.Model) -> ir.passes.PassResult:
@@ -97,6 +97,12 @@ class IdentityEliminationPass(ir.passes.InPlacePass):
         if output_is_graph_output and (
             input_value.is_graph_input() or input_value.is_initializer()
         ):
+            return False
+
+        # Case 3b: the output is a graph output and the input is defined in an outer scope.
+        # A (sub)graph output must be produced inside that graph, so the Identity is what
+        # makes the captured value an output of this graph - keep the node.
+        if output_is_graph_output and input_value.graph is not graph_like:
             return False
 
         # Copy over shape/type if the output has more complete information
